@@ -35,9 +35,8 @@ def mgda_check(H):
         cx.oblige("C18.MGDA.dtype", v.dtype == J.dtype)
         cx.oblige("C18.MGDA.shape", z3.And(len(v.shape_l) == 1, v.shape_l[0] == n))
         alpha = cx.ghost.get("mgda_alpha_exit")
-        cx.oblige("C18.MGDA.loop_contract_was_used", alpha is not None)
         if alpha is None:
-            return
+            raise KeyError("the Frank-Wolfe loop of MGDA (sidecar loop contract) was not executed on this path")
         with cx.mute():
             spec = S.matmul(it, alpha, J)
         cx.oblige("C18.MGDA.post.result_is_alpha_at_J", v.term == spec.term)
